@@ -53,14 +53,34 @@ def roles(crate):
             raise Anchor("TreapNode has no field `%s` (public field names are API anchors)" % n)
     R.ITEM, R.PRIO, R.LEFT, R.RIGHT = (names.index(n) for n in ("item", "priority", "left", "right"))
     R.crate = crate
-    R.merge = util.need_body(crate, "TreapNode::<T>::merge")
-    R.split_by = util.need_body(crate, "TreapNode::<T>::split_by")
-    R.split_at = util.need_body(crate, "TreapNode::<T>::split_at")
+    R.wrappers = {}
+    R.merge = _worker(crate, R, util.need_body(crate, "TreapNode::<T>::merge"))
+    R.split_by = _worker(crate, R, util.need_body(crate, "TreapNode::<T>::split_by"))
+    R.split_at = _worker(crate, R, util.need_body(crate, "TreapNode::<T>::split_at"))
     R.push = util.need_body(crate, "TreapNode::<T>::push")
     R.update = util.need_body(crate, "TreapNode::<T>::update")
     R.collect_into = util.need_body(crate, "TreapNode::<T>::collect_into")
     R.new = util.need_body(crate, "TreapNode::<T>::new")
+    role_fns = [R.merge, R.split_by, R.split_at, R.push, R.update, R.collect_into, R.new] + list(R.wrappers.values())
+    R.helpers = util.private_helpers(crate, "TreapNode", exclude=role_fns) + util.private_helpers(crate, "Treap", exclude=role_fns)
+    R.A = util.analyser(R.helpers)
     return R
+
+
+def _worker(crate, R, b):
+    """the public function itself when it is self-recursive; otherwise the private self-recursive worker it
+    forwards to (`pub fn split_by(root, mut pred) { Self::split_by_ref(root, &mut pred) }`)"""
+    if util.self_recursive(b):
+        return b
+    cands = []
+    for bb, t in b.calls():
+        tgt = crate.by_key.get(util.callee_key(t))
+        if tgt is not None and not tgt.is_closure and tgt.vis != "pub" and util.self_recursive(tgt):
+            cands.append(tgt)
+    if len(cands) != 1:
+        raise Anchor("%s is neither self-recursive nor a wrapper of exactly one private recursive worker" % b.path)
+    R.wrappers[cands[0].key] = b
+    return cands[0]
 
 
 def is_call_to(ev, body):
@@ -105,7 +125,7 @@ def check(col, prog, tier, profile, fixture=None):
 
     # ---------------- T1 / T2 on the three restructuring functions
     for b in (R.merge, R.split_by, R.split_at):
-        I = util.analyse(b)
+        I = R.A(b)
         nbranch = 0
         for n, st in enumerate(I.final_states):
             evs = st.event_list()
@@ -136,7 +156,7 @@ def check(col, prog, tier, profile, fixture=None):
     # ---------------- T3 reading walks
     for nm, fld in (("first", R.LEFT), ("last", R.RIGHT)):
         b = util.need_body(crate, "Treap::<T>::%s" % nm)
-        I = util.analyse(b)
+        I = R.A(b)
         backs = [s for l in I.backedge_states.values() for s in l]
         if not backs:
             col.violation("T3" + sfx, "%s|loop" % fk(b), b.loc(), "%s: no descent loop found" % b.path)
@@ -177,7 +197,7 @@ def check(col, prog, tier, profile, fixture=None):
                 else:
                     col.violation("T3" + sfx, "%s|returns-item" % fk(b), b.loc(), "%s does not return a reference to the reached node's item: %s" % (b.path, tstr(v)))
     b = R.collect_into
-    I = util.analyse(b)
+    I = R.A(b)
     selfpl = ("deref", ("param", 1, I.names.get(1)))
     npaths = 0
     for st in I.final_states:
@@ -210,7 +230,7 @@ def check(col, prog, tier, profile, fixture=None):
 
     # ---------------- T5 merge order
     b = R.merge
-    I = util.analyse(b)
+    I = R.A(b)
     L, Rt = ("param", 1, I.names.get(1)), ("param", 2, I.names.get(2))
     seen = set()
     for st in I.final_states:
@@ -219,8 +239,7 @@ def check(col, prog, tier, profile, fixture=None):
         if not rec:
             # trivial branches: one side empty -> the other is returned unchanged
             ret = util.ret_term(st)
-            dl = ("bin", "Eq", ("discr", L), mk_int(0))
-            if ret == Rt and ("eq", dl, 1) in st.facts:
+            if ret == Rt and _known_none(st.facts, L):
                 col.ok("T5" + sfx, b.loc(), "%s|left-empty" % fk(b), "returns right")
             elif ret == L:
                 col.ok("T5" + sfx, b.loc(), "%s|right-empty" % fk(b), "returns left")
@@ -253,12 +272,41 @@ def check(col, prog, tier, profile, fixture=None):
 
     # ---------------- T6 compositions
     _compositions(col, R, crate, sfx)
+    # public wrappers of private recursive workers forward their parameters in order and return the result
+    for wk, w in R.wrappers.items():
+        worker = crate.by_key[wk]
+        I = R.A(w)
+        for st in I.final_states:
+            calls = [e for e in st.event_list() if is_call_to(e, worker)]
+            ok = len(calls) == 1 and util.ret_term(st) == calls[0].res and len(calls[0].args) == w.arg_count
+            if ok:
+                for i, a in enumerate(calls[0].args):
+                    p_ = ("param", i + 1, I.names.get(i + 1))
+                    av = (calls[0].extra.get("argvals") or [None] * (i + 1))[i]
+                    if not (a == p_ or a == ("ref", ("local", i + 1)) or (a[0] == "ref" and av == p_)):
+                        ok = False
+            key = "%s|forwards-to-worker" % fk(w)
+            if ok:
+                col.ok("T6" + sfx, w.loc(), key, "%s(args in order) -> %s, result returned unchanged" % (w.name, worker.name))
+            else:
+                col.violation("T6" + sfx, key, w.loc(), "%s must forward its parameters in order to %s and return its result unchanged" % (w.path, worker.path))
+
+
+def _known_none(facts, X):
+    """the path facts say the Option X is None (is_none() true, discriminant 0, matched against None)"""
+    d = ("discr", X)
+    for f in facts:
+        if f[0] == "eq" and ((f[1] == d and f[2] == 0) or (f[1] == ("bin", "Eq", d, mk_int(0)) and f[2] == 1) or (f[1] == ("bin", "Ne", d, mk_int(0)) and f[2] == 0) or (f[1] == ("bin", "Eq", d, mk_int(1)) and f[2] == 0)):
+            return True
+        if f[0] == "ne" and f[1] == d and f[2] == 1:
+            return True
+    return False
 
 
 def _split_rules(col, R, sfx):
     fk = util.fkey
     for b, positional in ((R.split_at, True), (R.split_by, False)):
-        I = util.analyse(b)
+        I = R.A(b)
         root = ("param", 1, I.names.get(1))
         pos = ("param", 2, I.names.get(2))
         Lterm = None
@@ -370,15 +418,24 @@ def _is_left_size(L, R):
     return has_zero and has_size
 
 
+def _calls_role(e, R, role):
+    """a call of the recursive worker or of its public forwarding wrapper"""
+    if e.kind != "call":
+        return False
+    d = (e.fn.get("resolved") or e.fn).get("def")
+    w = R.wrappers.get(role.key)
+    return d == role.key or (w is not None and d == w.key)
+
+
 def _compositions(col, R, crate, sfx):
     fk = util.fkey
     # insert_at
     b = util.need_body(crate, "Treap::<T>::insert_at")
-    I = util.analyse(b)
+    I = R.A(b)
     for st in I.final_states:
         evs = st.event_list()
-        sp = [e for e in evs if is_call_to(e, R.split_at)]
-        mg = [e for e in evs if is_call_to(e, R.merge)]
+        sp = [e for e in evs if _calls_role(e, R, R.split_at)]
+        mg = [e for e in evs if _calls_role(e, R, R.merge)]
         nw = [e for e in evs if is_call_to(e, R.new)]
         stores = [e for e in evs if e.kind == "store" and e.place[0] == "field" and e.place[2] == 0]
         ok = len(sp) == 1 and len(mg) == 2 and len(nw) == 1
@@ -398,11 +455,11 @@ def _compositions(col, R, crate, sfx):
             col.violation("T6" + sfx, key, b.loc(), "insert_at is not split_at(pos) followed by merge(merge(left, new node), right)", {"events": [repr(e) for e in evs]})
     # remove_at
     b = util.need_body(crate, "Treap::<T>::remove_at")
-    I = util.analyse(b)
+    I = R.A(b)
     for st in I.final_states:
         evs = st.event_list()
-        sp = [e for e in evs if is_call_to(e, R.split_at)]
-        mg = [e for e in evs if is_call_to(e, R.merge)]
+        sp = [e for e in evs if _calls_role(e, R, R.split_at)]
+        mg = [e for e in evs if _calls_role(e, R, R.merge)]
         stores = [e for e in evs if e.kind == "store" and e.place[0] == "field" and e.place[2] == 0]
         ok = len(sp) == 2 and len(mg) == 1
         if ok:
@@ -421,9 +478,9 @@ def _compositions(col, R, crate, sfx):
             col.violation("T6" + sfx, key, b.loc(), "remove_at is not split_at(pos), split_at(rest, 1), merge(first, last) returning the middle node's item", {"events": [repr(e) for e in evs]})
     # Treap::merge / split_at / split_by wrappers
     b = util.need_body(crate, "Treap::<T>::merge")
-    I = util.analyse(b)
+    I = R.A(b)
     for st in I.final_states:
-        mg = [e for e in st.event_list() if is_call_to(e, R.merge)]
+        mg = [e for e in st.event_list() if _calls_role(e, R, R.merge)]
         l, r = ("param", 1, I.names.get(1)), ("param", 2, I.names.get(2))
         ok = len(mg) == 1 and mg[0].args == (("proj", 0, l), ("proj", 0, r)) and util.ret_term(st) == ("agg", util.ret_term(st)[1], (mg[0].res,))
         key = "%s|forwards-in-order" % fk(b)
@@ -433,9 +490,9 @@ def _compositions(col, R, crate, sfx):
             col.violation("T6" + sfx, key, b.loc(), "Treap::merge must forward (left.root, right.root) in this order")
     for nm, tgt in (("split_at", R.split_at), ("split_by", R.split_by)):
         b = util.need_body(crate, "Treap::<T>::%s" % nm)
-        I = util.analyse(b)
+        I = R.A(b)
         for st in I.final_states:
-            sp = [e for e in st.event_list() if is_call_to(e, tgt)]
+            sp = [e for e in st.event_list() if _calls_role(e, R, tgt)]
             ret = util.ret_term(st)
             ok = len(sp) == 1 and sp[0].args[0] == ("proj", 0, ("param", 1, I.names.get(1))) and sp[0].args[1] == ("param", 2, I.names.get(2))
             if ok:
